@@ -397,17 +397,18 @@ def packBE (w : Nat) (v : Int) (err : PyErr) : Except PyErr Bytes :=
   if v < 0 ∨ v ≥ (256 ^ w : Nat) then .error err else .ok (toBE w v.toNat)
 
 /-- one round of `__update_parents`: the 32-bit size field, or the 64-bit one when the 32-bit
-field reads 1.  A size field 0 ("to the end of file") is treated like any other number. -/
+field reads 1.  A size field 0 ("to the end of file") is treated like any other number.  Short
+reads and values that do not fit the field (`cdata.error`) are raised as MP4MetadataError. -/
 def patchSize (g : Bytes) (off : Nat) (delta : Int) : Except PyErr Bytes :=
   let s32 := readAt g off 4
-  if s32.length < 4 then .error .struct_
+  if s32.length < 4 then .error .mutagen
   else if ofBE s32 = 1 then
     let ext := (readAt g (off + 4) 12).drop 4
-    if ext.length < 8 then .error .struct_
-    else match packBE 8 ((ofBE ext : Int) + delta) .struct_ with
+    if ext.length < 8 then .error .mutagen
+    else match packBE 8 ((ofBE ext : Int) + delta) .mutagen with
       | .error e => .error e
       | .ok b => .ok (writeAt g (off + 8) b)
-  else match packBE 4 ((ofBE s32 : Int) + delta) .struct_ with
+  else match packBE 4 ((ofBE s32 : Int) + delta) .mutagen with
     | .error e => .error e
     | .ok b => .ok (writeAt g off b)
 
@@ -419,7 +420,7 @@ def pyRead (g : Bytes) (pos : Nat) (n : Int) : Bytes :=
 8 (co64).  The header is assumed 8 bytes long (the count is read at `off + 12`). -/
 def updateOffsetTable (g : Bytes) (w off len : Nat) (delta : Int) (offset : Nat) : Except PyErr Bytes :=
   let data := pyRead g (off + 12) ((len : Int) - 12)
-  if (data.take 4).length < 4 then .error .struct_       -- cdata.uint_be outside the try
+  if (data.take 4).length < 4 then .error .mutagen       -- cdata.uint_be inside the try: MP4MetadataError
   else
     let cnt := ofBE (data.take 4)
     let body := data.drop 4
